@@ -179,6 +179,11 @@ func (s *session) mount() []byte {
 			stat.Discard(true)
 			panic(abandon{err.Error()})
 		}
+		if errors.Is(err, drv.ErrTimeout) {
+			// (a request timeout of the export under test expired during the harness' own setup: a starved machine)
+			stat.Discard(false)
+			panic(abandon{err.Error()})
+		}
 		s.tb.Fatalf("harness: MNT: %v", err)
 	}
 	if st != 0 {
